@@ -40,6 +40,8 @@ func init() {
 			{Name: "variadic", Run: runVariadic},
 			{Name: "lattice", Run: runLattice},
 			{Name: "sliceref", Run: brig.RunSliceRef},
+			{Name: "restore", Run: brig.RunReentrantStore},
+			{Name: "earlyexit", Run: brig.RunEarlyExit},
 			{Name: "mapkeys", Run: brig.RunMapKeys},
 			{Name: "kindtwins", Run: func(r *engine.Run) { brig.RunKindTwins(r, true) }},
 			{Name: "histories", Run: runHistories},
